@@ -99,6 +99,11 @@ type Spec struct {
 	PassOrgs   []int64           `json:"pass_orgs"`
 	Orgs       []int64           `json:"orgs"`
 	MetNames   map[string]string `json:"met_names,omitempty"` // seg id -> metric name (chosen by the build process)
+	// zone scenarios (zone.go): time.Local of every worker process; Hours is chosen when the scenario starts so that the
+	// zone's latest clock change lies inside [now - Hours, now]; the two offsets (ms east of UTC) are recorded for the report
+	Zone        string `json:"zone,omitempty"`
+	ZoneOffNow  int64  `json:"zone_off_now,omitempty"`
+	ZoneOffThen int64  `json:"zone_off_then,omitempty"`
 }
 
 func (s *Spec) hz0() int64 { return s.T0 - int64(s.Hours)*3600000 }
@@ -590,6 +595,15 @@ func workerMain(specPath, outPath string) {
 			finish()
 		}
 	}()
+	if spec.Zone != "" {
+		// the server's local zone: what time.Now() inside the pass carries
+		loc, err := time.LoadLocation(spec.Zone)
+		if err != nil {
+			out.Err = "time zone " + spec.Zone + ": " + err.Error()
+			finish()
+		}
+		time.Local = loc
+	}
 	initSiglens(spec.Dir)
 	if !waitStartupSync() {
 		out.Err = "start-up synchronisation of segmeta.json did not finish"
@@ -1904,6 +1918,11 @@ func runScenario(idx int, spec *Spec, r *vhlib.Rng, cfg vhlib.Config) *scenarioR
 		res.HErr = fmt.Sprintf("scenario %d (%s): ", idx, spec.Kind) + fmt.Sprintf(f, a...)
 		return res
 	}
+	if spec.Zone != "" {
+		if err := spec.fixZoneHours(r); err != nil {
+			return herr("%v", err)
+		}
+	}
 	// build
 	spec.Phase = "build"
 	bo, err := runWorker(spec, scDir, "build", "")
@@ -1970,6 +1989,7 @@ func runScenario(idx int, spec *Spec, r *vhlib.Rng, cfg vhlib.Config) *scenarioR
 	}
 	res.Fails = append(res.Fails, evalObs(spec, dirOf, post, spec.PassOrgs, "after the pass", refWin)...)
 	res.Fails = append(res.Fails, evalObs(spec, dirOf, post2, spec.PassOrgs, "after the repeated pass", refWin)...)
+	res.Fails = append(res.Fails, zoneFails(spec, dirOf, post, refWin, "after the pass")...)
 	res.Fails = append(res.Fails, sharedIndexNames(spec, pre, post, post2, res,
 		compareObs("repeat_differs", post, post2, "second pass in the same process", true))...)
 	if spec.Kind == "live_tagstree" && len(ref.Obs) == 4 {
@@ -2390,6 +2410,9 @@ func main() {
 		"observed per store: the three in-memory views (global slice, reverse index, per-index slices), FilterSegmentsByTime over all time and a window, GetAllColNames; " +
 		"a third stream in which the pass runs WHILE rotations publish 1-2 log and 1-2 metrics segments in segmeta.json / metricmeta.json (publisher queued behind the pass that waits at its rewrite, " +
 		"publication between selection and rewrite, both started together), observed after both finished, after one more pass and after a restart; " +
+		"a fourth stream for the clock side: GetRetentionTimeMs on time values of 13 zones (daylight saving on both hemispheres, 30-minute change, half-hour offsets, a skipped day, fixed offsets) " +
+		"at instants around every clock change 2012-2030 and with the horizon next to one, retentions 0 h .. 400 days, and the real pass in processes whose local zone has daylight saving " +
+		"(retention chosen from the date of the run so that the zone's latest clock change lies inside the window; segments 15 min older / newer than the horizon in every store); " +
 		"non-trivial = the pass removed at least one segment and kept at least one; distinct by (scenario, interruption point)")
 	r := vhlib.NewRng(cfg.Seed)
 
@@ -2449,6 +2472,19 @@ func main() {
 	for i := 0; i < nConc; i++ {
 		specs = append(specs, genConcurrent(r.Fork(), i))
 		rngs = append(rngs, r.Fork())
+	}
+	// the clock side (zone.go): forked after every older stream
+	rz := r.Fork()
+	horizonZoneStream(rz.Fork(), sum, cfg)
+	// both hemispheres (on every date one pair is past its change forward, the other past its change back), the
+	// 30-minute change, and a fixed offset that is not UTC (a wall-clock reading taken for an instant is off by 5.5 h there)
+	zoneList := []string{"America/New_York", "Europe/Berlin", "Australia/Lord_Howe", "Australia/Sydney", "Asia/Kolkata"}
+	if cfg.Thorough() {
+		zoneList = append(append(append([]string{}, dstZones...), dstZones...), fixedZones...)
+	}
+	for i, z := range zoneList {
+		specs = append(specs, genZone(rz.Fork(), i, z))
+		rngs = append(rngs, rz.Fork())
 	}
 	if only := os.Getenv("C14_ONLY"); only != "" {
 		// debugging aid: run the scenarios of one kind only (the specs themselves do not change)
@@ -2517,7 +2553,20 @@ func main() {
 				}
 			}
 		}
-		sum.Count(fmt.Sprintf("retention_hours_%d", res.Spec.Hours))
+		if res.Spec.Zone != "" {
+			// the retention depends on the date of the run
+			sum.Count("scenario_in_zone_" + res.Spec.Zone)
+			if res.Spec.ZoneOffNow != res.Spec.ZoneOffThen {
+				sum.Count("pass_with_a_clock_change_of_the_server_zone_inside_the_retention_window")
+				if res.Spec.ZoneOffNow > res.Spec.ZoneOffThen {
+					sum.Count("pass_after_clocks_went_forward")
+				} else {
+					sum.Count("pass_after_clocks_went_back")
+				}
+			}
+		} else {
+			sum.Count(fmt.Sprintf("retention_hours_%d", res.Spec.Hours))
+		}
 		nontrivial := res.Deleted > 0 && res.Kept > 0
 		sum.Eval(fmt.Sprintf("sc%d", i), nontrivial)
 		sum.Eval(fmt.Sprintf("sc%d-repeat", i), nontrivial)
